@@ -163,8 +163,19 @@ def run(module, cfg=None, *, cfg_text=None, workers=None, dump=False, simulate=N
         res.violated, res.kind = "ASSUME " + m3.group(1)[:80], "assumption"
     if not res.violated and re.search(r"[Pp]ost-?condition.*(violated|false)", out):
         res.violated, res.kind = "postcondition", "postcondition"
+    # An invariant whose value does not depend on the state (it only reads the MC constants of this run) and
+    # is FALSE is reported by TLC as "The invariant of X is equal to FALSE" (rc 151) before any state is
+    # generated: that IS a violation of X (in every state), not a machinery failure.
+    mc = re.search(r"The invariant of (\S+) is equal to FALSE", out)
+    const_false = None
+    if mc and not res.violated:
+        res.violated, res.kind = mc.group(1), "invariant"
+        const_false = mc.group(1)
     res.violations = []  # all (name, trace) pairs when run with -continue
-    if res.violated:
+    if const_false:
+        res.violations.append((const_false, []))
+        res.trace = []
+    elif res.violated:
         ms = list(re.finditer(r"(?:Invariant|Action property) (\S+) is violated", out))
         for i, mm in enumerate(ms):
             end = ms[i + 1].start() if i + 1 < len(ms) else len(out)
